@@ -99,6 +99,9 @@ let op_of (toks : string list) : op =
   match toks with
   | m :: name :: args ->
       let m = mode_of m in
+      (* `<name>:<item type>`: which Extend / FromIterator impl the runner goes through; all of them are push / push_str
+         per item in the crate, and one operation in the model *)
+      let name = match String.index_opt name ':' with Some k -> String.sub name 0 k | None -> name in
       let nat s = nat_of_int (int_of_string s) in
       (match name, args with
        | "new", [] -> ONew
